@@ -48,3 +48,7 @@ def run(repo, res, tier):
     # nothing after END matters: the repair hook hands END back to the production that recognises it
     _hkao.rule_hook_peek(repo, res)
     _ap5.rule_f2c(repo, res)
+    _ap5.rule_f2d(repo, res)
+    # END is recognised as END whatever decoder the caller chose: no decoder takes a block keyword or END for a value
+    from .. import langrules as _lr9
+    _lr9.rule_kw_excl(repo, res, _lr9.analyse(repo))
